@@ -307,10 +307,14 @@ func (s *Scheme) runDKG(ctx context.Context, membership *membership, dkgProtocol
 			return
 		}
 
-		s.lock.Lock()
-		_, rbcExisted := s.rbcInProgress[string(dkgTopicHash)]
-		s.rbcInProgress[string(dkgTopicHash)] = rbc.Receive
-		s.lock.Unlock()
+		var rbcExisted bool
+
+		if !s.registerWhileActive(ctx, func() {
+			_, rbcExisted = s.rbcInProgress[string(dkgTopicHash)]
+			s.rbcInProgress[string(dkgTopicHash)] = rbc.Receive
+		}) {
+			return
+		}
 
 		if rbcExisted {
 			panic("Programming error: we shouldn't have gotten to a situation with two concurrent signing with the same topic")
@@ -329,9 +333,11 @@ func (s *Scheme) runDKG(ctx context.Context, membership *membership, dkgProtocol
 			s.Send(uint8(MsgTypeSync), membersSyncTopicHash, msg, UniversalID(to))
 		})
 
-		s.lock.Lock()
-		s.syncsInProgress[string(membersSyncTopicHash)] = sync.HandleMessage
-		s.lock.Unlock()
+		if !s.registerWhileActive(ctx, func() {
+			s.syncsInProgress[string(membersSyncTopicHash)] = sync.HandleMessage
+		}) {
+			return
+		}
 
 		defer func() {
 			s.lock.Lock()
@@ -405,6 +411,22 @@ func (s *Scheme) initializeHandlers(
 	}
 }
 
+// registerWhileActive runs register, which adds handlers of a session to the tables, under the lock,
+// unless the context of that session is already done. A session cancels its context before it removes
+// its handlers, so a callback that outlives its session can no longer leave handlers behind.
+func (s *Scheme) registerWhileActive(ctx context.Context, register func()) bool {
+	s.lock.Lock()
+	defer s.lock.Unlock()
+
+	if ctx.Err() != nil {
+		return false
+	}
+
+	register()
+
+	return true
+}
+
 func (s *Scheme) ensureDKGNotRunning() error {
 	s.lock.Lock()
 	defer s.lock.Unlock()
@@ -448,7 +470,6 @@ func (s *Scheme) Sign(c context.Context, msgHash []byte, topic string) ([]byte, 
 	}, 1)
 
 	ctx, cancel := context.WithCancel(c)
-	defer cancel()
 
 	cleanup := func() {
 		s.lock.Lock()
@@ -477,7 +498,7 @@ func (s *Scheme) Sign(c context.Context, msgHash []byte, topic string) ([]byte, 
 
 		start2 := time.Now()
 
-		signingProtocol, err := s.prepareSigning(membership, partyIDs, topicHash, UIntsToUniversalIDs(signers))
+		signingProtocol, err := s.prepareSigning(ctx, membership, partyIDs, topicHash, UIntsToUniversalIDs(signers))
 		if err != nil {
 			s.Logger.Errorf("Failed initializing signing instance: %v", err)
 			return
@@ -494,9 +515,11 @@ func (s *Scheme) Sign(c context.Context, msgHash []byte, topic string) ([]byte, 
 			s.Send(uint8(MsgTypeSync), syncTopic, msg, UniversalID(to))
 		})
 
-		s.lock.Lock()
-		s.syncsInProgress[string(syncTopic)] = sync.HandleMessage
-		s.lock.Unlock()
+		if !s.registerWhileActive(ctx, func() {
+			s.syncsInProgress[string(syncTopic)] = sync.HandleMessage
+		}) {
+			return
+		}
 
 		cleanupSyncTopic := func() {
 			s.lock.Lock()
@@ -532,8 +555,16 @@ func (s *Scheme) Sign(c context.Context, msgHash []byte, topic string) ([]byte, 
 
 	sync, err := s.initializeSyncForSigning(topic, topicHash, membership.universalIdentifiers)
 	if err != nil {
+		// Another session owns this topic, its handlers are not ours to remove
+		cancel()
 		return nil, err
 	}
+
+	// From here on, whichever way we return, nothing of this session may stay registered.
+	// The context is cancelled first (deferred calls run in reverse order), so that a callback
+	// that is still running cannot register anything after the cleanup, see registerWhileActive.
+	defer cleanup()
+	defer cancel()
 
 	go func() {
 		if err := sync.Synchronize(ctx, initializeSigningInstance, topicHash, s.Threshold+1, SyncInterval); err != nil {
@@ -589,7 +620,7 @@ func (s *Scheme) initializeSyncForSigning(topic string, topicHash []byte, member
 	return sync, nil
 }
 
-func (s *Scheme) prepareSigning(membership *membership, parties []PartyID, topicHash []byte, signers []UniversalID) (Signer, error) {
+func (s *Scheme) prepareSigning(ctx context.Context, membership *membership, parties []PartyID, topicHash []byte, signers []UniversalID) (Signer, error) {
 	signingProtocol, err := s.initializeThresholdSigning(membership, parties, topicHash, signers)
 	if err != nil {
 		return nil, err
@@ -612,15 +643,17 @@ func (s *Scheme) prepareSigning(membership *membership, parties []PartyID, topic
 		warn:        s.Logger.Warnf,
 	}
 
-	s.lock.Lock()
+	var rbcExisted, classifierExisted bool
 
-	_, rbcExisted := s.rbcInProgress[string(topicHash)]
-	s.rbcInProgress[string(topicHash)] = rbc.Receive
+	if !s.registerWhileActive(ctx, func() {
+		_, rbcExisted = s.rbcInProgress[string(topicHash)]
+		s.rbcInProgress[string(topicHash)] = rbc.Receive
 
-	_, classifierExisted := s.messageClassifiers[string(topicHash)]
-	s.messageClassifiers[string(topicHash)] = signingProtocol.ClassifyMsg
-
-	s.lock.Unlock()
+		_, classifierExisted = s.messageClassifiers[string(topicHash)]
+		s.messageClassifiers[string(topicHash)] = signingProtocol.ClassifyMsg
+	}) {
+		return nil, ctx.Err()
+	}
 
 	if rbcExisted || classifierExisted {
 		panic("Programming error: we shouldn't have gotten to a situation with two concurrent signing with the same topic")
